@@ -273,8 +273,8 @@ def evaluate(cases: list[dict], rng, res: core.Result, procs: int = 16, full_swe
         cli_limit = rng.choice(limits)
         work.append((i, c["lang"], l["text"], limits, cli_limit, str(root)))
     try:
-        with mp.Pool(procs) as pool:
-            impls = pool.map(impl_case, work, chunksize=4)
+        if True:
+            impls = core.pmap(impl_case, work, procs=procs, chunksize=4)
     finally:
         shutil.rmtree(root, ignore_errors=True)
     for c, l, im, w in zip(cases, leans, impls, work):
@@ -389,8 +389,8 @@ def project_mode(rng, n: int, res: core.Result):
     for i, (cfg, eff, files) in enumerate(metas):
         work.append((i, [(name, leans[3 * i + k]["text"]) for k, (name, _l) in enumerate(files)], cfg, str(root)))
     try:
-        with mp.Pool(16) as pool:
-            impls = pool.map(impl_project, work, chunksize=2)
+        if True:
+            impls = core.pmap(impl_project, work, procs=16, chunksize=2)
     finally:
         shutil.rmtree(root, ignore_errors=True)
     for i, ((cfg, eff, files), im) in enumerate(zip(metas, impls)):
